@@ -278,6 +278,13 @@ def nested_outer(tr: tuple) -> bool:
     return any(nested_outer(x) for x in tr[1:] if isinstance(x, tuple))
 
 
+def has_distinct_setop(tr: tuple) -> bool:
+    """an INTERSECT / EXCEPT ALL whose result is then projected to fewer columns (here: by a later join/select)"""
+    if tr[0] == "setop" and tr[3] in ("intersect", "exceptAll"):
+        return True
+    return any(has_distinct_setop(x) for x in tr[1:] if isinstance(x, tuple))
+
+
 def contains_join(tr: tuple) -> bool:
     return tr[0] in ("join", "setop") or any(contains_join(x) for x in tr[1:] if isinstance(x, tuple))
 
@@ -292,6 +299,8 @@ def classify_tree(tr: tuple, fails: t.List[str], known: t.Dict[str, dict]) -> t.
             hs.add("H_optDiamondKeyError")
         elif "rows differ" in f and nested_outer(tr) and "H_optNestedOuterJoin" in known:
             hs.add("H_optNestedOuterJoin")
+        elif "rows differ" in f and has_distinct_setop(tr) and "H_optProjectsThroughSetOp" in known:
+            hs.add("H_optProjectsThroughSetOp")
         else:
             return []
     return sorted(hs)
